@@ -108,16 +108,13 @@ pub fn intersect_cc<'a>(mut a: &'a Circle, mut b: &'a Circle) -> CircleIntersect
     } else if d < a.r - b.r + EPS {
         CircleIntersection::TouchInside(a.c + (b.c - a.c) / d * a.r)
     } else if d < a.r + b.r - EPS {
-        let line = Line::new(
-            -a.c.x * 2.0 + b.c.x * 2.0,
-            -a.c.y * 2.0 + b.c.y * 2.0,
-            a.c.x.powi(2) + a.c.y.powi(2) - b.c.x.powi(2) - b.c.y.powi(2) - a.r.powi(2) + b.r.powi(2),
-        );
-        match intersect_cl(a, &line) {
-            CircleLineIntersection::None => CircleIntersection::None,
-            CircleLineIntersection::Touch(p) => CircleIntersection::TouchOutside(p),
-            CircleLineIntersection::Intersect(u, v) => CircleIntersection::Intersect(u, v),
-        }
+        // the circles are known to cross here, so there are always two points:
+        // `h` is the distance from a.c to the radical line along (b.c - a.c)
+        let h = (d * d + a.r * a.r - b.r * b.r) / (2.0 * d);
+        let side = (a.r * a.r - h * h).max(0.0).sqrt();
+        let dir = (b.c - a.c) / d;
+        let par = Point::new(-dir.y, dir.x);
+        CircleIntersection::Intersect(a.c + dir * h + par * side, a.c + dir * h - par * side)
     } else if d < a.r + b.r + EPS {
         CircleIntersection::TouchOutside(a.c + (b.c - a.c) / d * a.r)
     } else {
